@@ -182,7 +182,6 @@ pub fn run(ctx: &Ctx) -> Report {
         head.add_count("configs_key_world", configs.len() as u64);
         explore(ctx, &mut head, &w, configs, Some(5));
     }
-    head.sample(json!({"query": "SELECT age, count(*) AS c FROM users GROUP BY age", "database": {"users": ["(1,18,'A')", "(2,18,'B')"]}, "random_script": [1.0, 1.0, 1e-300], "observed": "limited (key, unit) table, unit count 2 for key 18, noisy count 2 + sigma*sqrt(-2 ln 1e-300), tau, released keys"}));
     head.rule = "grouped DP queries (private key, mixed public/private keys, computed key, key along the foreign-key path, public key) x Cu in {1,2,5} x privacy unit given by the foreign-key path or directly with a per-row weight x ALL database instances of the compact world x ALL random scripts within the deviation bound (default answer 1.0 = zero noise; alphabet {0.25, 1e-300, 0.75} (thorough {0.5, 0.25, 1e-300, 0.75, 0.1}) at <= 1 (thorough 2) of the first K draws, K = draws of one materialisation, <= 10); node-by-node materialisation; oracle: (1) a key passes the filter only if its noisy count in this execution > the tau literal, and every released row's private key passed; (3) after the contribution limit no unit holds more than Cu groups, for every script; (4) the count fed to the noise = distinct units holding the key in the limited table, and <= the number of distinct units holding the key in the database (ground truth by a hand-written SQL query per subject); (5) with zero noise no singleton key is released. non-trivial = executions in which some key exceeds tau".into();
     head.assumptions = vec!["tau and sigma_count against the closed forms are checked by C03".into(), "scripts deviate in the first K <= 10 draws only".into()];
     head
@@ -329,6 +328,9 @@ fn explore(ctx: &Ctx, head: &mut Report, world: &World, configs: Vec<Compiled>, 
                             if !above.is_empty() {
                                 r.reach("reach", "key-released-by-noise");
                                 r.distinct_nontrivial += 1;
+                                if r.samples.is_empty() {
+                                    r.sample(json!({"query": c.query.sql, "dp_parameters": c.dp_name, "database": show_db(db), "random_script": script, "limited_key_unit_table": limited.show(), "unit_counts": counts.show(), "noisy_counts": noisy.show(), "tau": pl.tau, "passed": passed.show(), "released": fin.show()}));
+                                }
                             }
                             // the final output: the private part of every released key passed the filter
                             let passed_keys: Vec<Vec<String>> = passed.rows.iter().map(|row| pk.iter().map(|i| row[*i].show()).collect()).collect();
